@@ -214,6 +214,13 @@ func n11Hostile(t *testing.T, kind int, when int) (desc string) {
 		stopc := make(chan struct{})
 		done := make(chan struct{})
 		go func() { l.Maintenance(50*time.Second, n11Path, stopc, nil); close(done) }()
+		stopped := false
+		defer func() {
+			if !stopped {
+				close(stopc)
+				<-done
+			}
+		}()
 		l.Log(c10Keys[0].r, c10Keys[0].gk, []uint64{1}, nil, nil, 0)
 		if when == 1 {
 			time.Sleep(51 * time.Second) // a good snapshot exists before the hostile call
@@ -255,6 +262,7 @@ func n11Hostile(t *testing.T, kind int, when int) (desc string) {
 			time.Sleep(51 * time.Second) // a maintenance snapshot after the hostile call
 		}
 		time.Sleep(time.Second)
+		stopped = true
 		close(stopc)
 		<-done
 		want := n11Dump(l)
